@@ -35,6 +35,7 @@ func c08Plan(c c08Case) c08Stats {
 	deleted := map[string]bool{}
 	base := "log" // what a restart would load: "log" (pure replay), "snapshot" (+ log tail), "rewrite" (compacted log)
 	delSinceVacuum := false
+	tail := false // metadata changed since the base (snapshot / compacted log) was written
 	check := func() {
 		for _, f := range c.Filters {
 			must, may := c08Expect(m, f)
@@ -83,17 +84,23 @@ func c08Plan(c c08Case) c08Stats {
 			}
 			delSinceVacuum = false
 		case "snapshot":
-			base = "snapshot"
+			base, tail = "snapshot", false
 		case "rewrite":
-			base = "rewrite"
+			base, tail = "rewrite", false
 		case "compress":
-			base = "snapshot"
+			base, tail = "snapshot", false
 			st.l("way:compress")
 			if m.hasList() {
 				st.l("way:compress-with-list")
 			}
 		case "restart":
 			st.l("way:restart-from-" + base)
+			if tail && base != "log" {
+				st.l("way:restart-from-" + base + "+log-tail")
+			}
+		}
+		if op.K == "add" || op.K == "set" || op.K == "del" {
+			tail = true
 		}
 		m.apply(op)
 		if m.hasList() {
